@@ -404,19 +404,7 @@ func cipherClass(c cfgSpec) string {
 	return "tls12-aes-gcm"
 }
 
-func exec(line string) zv.Out {
-	o := exec1(line)
-	if d := os.Getenv("ZV_C32_DEBUG"); d != "" { // development aid: print the cases carrying a tag that contains d
-		for _, t := range o.Tags {
-			if strings.Contains(t, d) {
-				fmt.Fprintln(os.Stderr, "DEBUG", line, o.Tags)
-				break
-			}
-		}
-	}
-	return o
-}
-
+// exec (timing.go) wraps exec1: per-case watchdog, timing-class symptoms confirmed alone
 func exec1(line string) zv.Out {
 	f := strings.Fields(line)
 	if len(f) < 4 {
@@ -771,6 +759,7 @@ func genMITM(g *zv.Gen) {
 // ZV_C32_STREAMS (development aid): a comma-separated subset of rd,dg,kx,mitm,forge,keyed,kxv,wf,rand; default: all
 func gen(g *zv.Gen) {
 	tlsrig.GetPKI()
+	calibrate() // the generators run base handshakes under scaled timeouts too
 	want := func(s string) bool {
 		e := os.Getenv("ZV_C32_STREAMS")
 		if e == "" {
@@ -819,6 +808,6 @@ func gen(g *zv.Gen) {
 }
 
 func init() {
-	zv.Register(&zv.Prop{ID: "C32", Topic: "c32", Gen: gen, Exec: exec, Timeout: 40 * time.Second,
-		Rule: "rd: generated record streams (handshake bytes of simple messages cut into records, interleaved warning alerts / CCS / empty / wrong-type / wrong-version / oversized records, runs around maxUselessRecords, lengths around maxHandshake, truncation and byte damage; plus a systematic framing sweep: every record type x every length 0..20 x three reassembly states x several contents, every alert level / description, runs of zero-length records of each type) through the real reader (hook) vs the Lean model and a reference framer; dg: the real encrypt (hook, fixed keys) produces a protected record for every record-protection class (none, RC4, 3DES / AES CBC with implicit and explicit IV and both MAC sizes, AES-GCM, ChaCha20, the three TLS 1.3 suites), the record is re-framed to EVERY length 0..genuine+20 (and outer types), and the real halfConn.decrypt is compared with the Lean model of its guards; kx: the real key-exchange parameter parsers (hook: serverKeyExchangeMsg / clientKeyExchangeMsg.unmarshal + processServerKeyExchange of the ECDHE and DHE key agreements incl. verifyParameters, processClientKeyExchange of the RSA, ECDHE and DHE key agreements) on generated messages (every curve incl. unsupported ones, genuine / random / short / long / low-order / compressed shares, every signature scheme and (hash, signature) byte, TLS 1.0-1.2, consistent and lying length fields, DHE parameters with leading zeros, Ys = 0 / p / > p, every kind of client signature list), EVERY prefix of each, one byte removed / inserted / set to boundary values at every structural position, all ClientKeyExchange messages of up to 7 bytes over a small alphabet, compared with the Lean model in which every Go index and slice expression can panic (accept / reject / panic and every parsed field); kx dgen / egen / rdec (VALUES, framing always consistent): DHE ServerKeyExchange messages with every group p <= 20 x every g, Ys in 0..p+1, degenerate and realistic moduli (0, 1, 2, 3, 4, small primes, even numbers, powers of two and their neighbours, ffdhe2048, its double, the RFC 5114 group) x g in {0, 1, 2, p-2, p-1, p, p+1, random} x Ys likewise, empty fields, leading zeros, random groups, with and without a signature block, through processServerKeyExchange of an InsecureSkipVerify client AND THEN the whole client step (generateClientKeyExchange, ClientKeyExchange.marshal, log records + json.Marshal, master secret) on the same key agreement, class of parse and of step compared with the Lean model (crypto/rand.Int panics on a bound <= 0) and exponent < p, Yc = g^x mod p, pre-master = Ys^x mod p, message framing checked; ECDHE shares per curve (P-256, P-384, P-521, X25519): the point at infinity, (0,0), off-curve, negated, unreduced / zero coordinates, compressed and hybrid forms, wrong prefixes, every length 0..len+2, all X25519 small-order points and non-canonical encodings, a share under the name of another curve, through the ServerKeyExchange parser (T2, share verdict from crypto/ecdh) + the client step, and through the ClientKeyExchange parser; RSA ClientKeyExchange with an encrypted pre-master secret of EVERY length 0..262 (and 511..65535) and several fillings, the modulus and its neighbours, genuine encryptions of secrets of every length, decrypted by processClientKeyExchange with a real private key; kxv: the same value-level forgeries inside REAL handshakes (16 configurations: DHE_RSA at TLS 1.0-1.2, ECDHE_RSA / ECDHE_ECDSA / Ed25519 on X25519 / P-256 / P-384 / P-521, RSA key exchange, TLS 1.3 on the four curves; DHE only offered with ForceSuites) by a man in the middle that re-encodes the message with consistent lengths and RE-SIGNS the ServerKeyExchange with the server key (valid signature: TLS 1.2 PKCS#1 / PSS / ECDSA / Ed25519, TLS 1.0/1.1 MD5+SHA1 / SHA1), or leaves the signature and lets an InsecureSkipVerify client through, or leaves it for a verifying client (must be refused): whole DH groups and single parameters, ECDHE points and curve ids and curve type, ClientKeyExchange Yc / point / encrypted pre-master of every length towards the server, TLS 1.3 key shares of ServerHello and ClientHello; the endpoint runs the whole step behind the parser (ClientKeyExchange, ChangeCipherSpec, Finished; evidence tags kxv:client-sent-ckx+finished); wf: transports whose WRITE side fails (error, expired write deadline — also through Conn.SetWriteDeadline —, half a flight or its first one / two records delivered, a single failing write after which the transport recovers) at every transport write of the handshake (8 configurations, client and server) or after the handshake while a key-holding peer makes the endpoint ANSWER (KeyUpdate(update_requested) with / without key change, several requests, illegal request value, close_notify, fatal / warning / malformed alerts, HelloRequest with renegotiation refused or allowed, ClientHello, NewSessionTicket, CCS, runs of empty records, unknown content type, partial message), then both transports are closed and Write, CloseWrite (twice), Handshake, Read, Close, ConnectionState / GetHandshakeLog are called in four different orders, each under a 5 s watchdog; mitm: real zcrypto client/server handshakes + data exchange (30 configurations: TLS 1.0-1.3, RSA / ECDHE / finite-field DHE key exchange, every record-protection class, key types, tickets, client auth) through a transport that flips a bit / truncates and closes / inserts a byte / re-chunks / re-frames at one position (sampled positions in quick, every position in thorough), either direction; rlen: once protection is active every protected record of the exchange re-framed to every length 0..20 and around every block / MAC / IV / nonce / tag boundary (header consistent with the bytes that follow), as replacement or as inserted record, with every content type; hsf: every plaintext handshake message parsed into its field tree and re-encoded with consistent lengths after ONE field was emptied / shortened / cut to one byte / lengthened / dropped / doubled / filled with 00 or ff / given a length prefix that lies by one, the body cut to every short length, the message type set to every value, every one-byte enum field (hash id, signature id, curve type, point format, compression, certificate type, status type, name type, ...) set to every value 0..255 (once per field and key exchange in quick, everywhere in thorough), two-byte code points set to boundary values; alert: a plaintext alert of every level / description inserted in front of every record; frag: the handshake stream re-framed into records of 1..20, 31..33, 63..65, 255..257, 1024 bytes; keyed: the peer itself, holding the keys, sends correctly protected records after a genuine handshake: alerts of every level / description, every content type, records of every small length, runs of ignorable records around maxUselessRecords, post-handshake handshake messages of every type, KeyUpdate with every request value, NewSessionTicket with edited fields, messages split over records; rand: random / record-shaped / handshake-shaped byte streams fed to a client and to a server; a case is one distinct line"})
+	zv.Register(&zv.Prop{ID: "C32", Topic: "c32", Gen: gen, Exec: exec, Timeout: 6 * time.Hour, // never reached: cases wait for the isolation mutex inside it; see timing.go (guarded)
+		Rule: "rd: generated record streams (handshake bytes of simple messages cut into records, interleaved warning alerts / CCS / empty / wrong-type / wrong-version / oversized records, runs around maxUselessRecords, lengths around maxHandshake, truncation and byte damage; plus a systematic framing sweep: every record type x every length 0..20 x three reassembly states x several contents, every alert level / description, runs of zero-length records of each type) through the real reader (hook) vs the Lean model and a reference framer; dg: the real encrypt (hook, fixed keys) produces a protected record for every record-protection class (none, RC4, 3DES / AES CBC with implicit and explicit IV and both MAC sizes, AES-GCM, ChaCha20, the three TLS 1.3 suites), the record is re-framed to EVERY length 0..genuine+20 (and outer types), and the real halfConn.decrypt is compared with the Lean model of its guards; kx: the real key-exchange parameter parsers (hook: serverKeyExchangeMsg / clientKeyExchangeMsg.unmarshal + processServerKeyExchange of the ECDHE and DHE key agreements incl. verifyParameters, processClientKeyExchange of the RSA, ECDHE and DHE key agreements) on generated messages (every curve incl. unsupported ones, genuine / random / short / long / low-order / compressed shares, every signature scheme and (hash, signature) byte, TLS 1.0-1.2, consistent and lying length fields, DHE parameters with leading zeros, Ys = 0 / p / > p, every kind of client signature list), EVERY prefix of each, one byte removed / inserted / set to boundary values at every structural position, all ClientKeyExchange messages of up to 7 bytes over a small alphabet, compared with the Lean model in which every Go index and slice expression can panic (accept / reject / panic and every parsed field); kx dgen / egen / rdec (VALUES, framing always consistent): DHE ServerKeyExchange messages with every group p <= 20 x every g, Ys in 0..p+1, degenerate and realistic moduli (0, 1, 2, 3, 4, small primes, even numbers, powers of two and their neighbours, ffdhe2048, its double, the RFC 5114 group) x g in {0, 1, 2, p-2, p-1, p, p+1, random} x Ys likewise, empty fields, leading zeros, random groups, with and without a signature block, through processServerKeyExchange of an InsecureSkipVerify client AND THEN the whole client step (generateClientKeyExchange, ClientKeyExchange.marshal, log records + json.Marshal, master secret) on the same key agreement, class of parse and of step compared with the Lean model (crypto/rand.Int panics on a bound <= 0) and exponent < p, Yc = g^x mod p, pre-master = Ys^x mod p, message framing checked; ECDHE shares per curve (P-256, P-384, P-521, X25519): the point at infinity, (0,0), off-curve, negated, unreduced / zero coordinates, compressed and hybrid forms, wrong prefixes, every length 0..len+2, all X25519 small-order points and non-canonical encodings, a share under the name of another curve, through the ServerKeyExchange parser (T2, share verdict from crypto/ecdh) + the client step, and through the ClientKeyExchange parser; RSA ClientKeyExchange with an encrypted pre-master secret of EVERY length 0..262 (and 511..65535) and several fillings, the modulus and its neighbours, genuine encryptions of secrets of every length, decrypted by processClientKeyExchange with a real private key; kxv: the same value-level forgeries inside REAL handshakes (16 configurations: DHE_RSA at TLS 1.0-1.2, ECDHE_RSA / ECDHE_ECDSA / Ed25519 on X25519 / P-256 / P-384 / P-521, RSA key exchange, TLS 1.3 on the four curves; DHE only offered with ForceSuites) by a man in the middle that re-encodes the message with consistent lengths and RE-SIGNS the ServerKeyExchange with the server key (valid signature: TLS 1.2 PKCS#1 / PSS / ECDSA / Ed25519, TLS 1.0/1.1 MD5+SHA1 / SHA1), or leaves the signature and lets an InsecureSkipVerify client through, or leaves it for a verifying client (must be refused): whole DH groups and single parameters, ECDHE points and curve ids and curve type, ClientKeyExchange Yc / point / encrypted pre-master of every length towards the server, TLS 1.3 key shares of ServerHello and ClientHello; the endpoint runs the whole step behind the parser (ClientKeyExchange, ChangeCipherSpec, Finished; evidence tags kxv:client-sent-ckx+finished); wf: transports whose WRITE side fails (error, expired write deadline — also through Conn.SetWriteDeadline —, half a flight or its first one / two records delivered, a single failing write after which the transport recovers) at every transport write of the handshake (8 configurations, client and server) or after the handshake while a key-holding peer makes the endpoint ANSWER (KeyUpdate(update_requested) with / without key change, several requests, illegal request value, close_notify, fatal / warning / malformed alerts, HelloRequest with renegotiation refused or allowed, ClientHello, NewSessionTicket, CCS, runs of empty records, unknown content type, partial message), then both transports are closed and Write, CloseWrite (twice), Handshake, Read, Close, ConnectionState / GetHandshakeLog are called in four different orders, each under a watchdog (5 s on an idle machine, scaled by a load factor measured at start; a call that misses it is reported only when the same line, re-run ALONE in the harness process, misses it again in 2 of 3 runs — every did-not-return oracle of this property works that way, timing.go); mitm: real zcrypto client/server handshakes + data exchange (30 configurations: TLS 1.0-1.3, RSA / ECDHE / finite-field DHE key exchange, every record-protection class, key types, tickets, client auth) through a transport that flips a bit / truncates and closes / inserts a byte / re-chunks / re-frames at one position (sampled positions in quick, every position in thorough), either direction; rlen: once protection is active every protected record of the exchange re-framed to every length 0..20 and around every block / MAC / IV / nonce / tag boundary (header consistent with the bytes that follow), as replacement or as inserted record, with every content type; hsf: every plaintext handshake message parsed into its field tree and re-encoded with consistent lengths after ONE field was emptied / shortened / cut to one byte / lengthened / dropped / doubled / filled with 00 or ff / given a length prefix that lies by one, the body cut to every short length, the message type set to every value, every one-byte enum field (hash id, signature id, curve type, point format, compression, certificate type, status type, name type, ...) set to every value 0..255 (once per field and key exchange in quick, everywhere in thorough), two-byte code points set to boundary values; alert: a plaintext alert of every level / description inserted in front of every record; frag: the handshake stream re-framed into records of 1..20, 31..33, 63..65, 255..257, 1024 bytes; keyed: the peer itself, holding the keys, sends correctly protected records after a genuine handshake: alerts of every level / description, every content type, records of every small length, runs of ignorable records around maxUselessRecords, post-handshake handshake messages of every type, KeyUpdate with every request value, NewSessionTicket with edited fields, messages split over records; rand: random / record-shaped / handshake-shaped byte streams fed to a client and to a server; a case is one distinct line"})
 }
